@@ -56,6 +56,13 @@ def worker_env():
     return env
 
 
+def _cpu_seconds(pid):
+    """User + system CPU time of a process (all threads), in seconds."""
+    with open(f"/proc/{pid}/stat") as f:
+        fields = f.read().rsplit(")", 1)[1].split()
+    return (int(fields[11]) + int(fields[12])) / os.sysconf("SC_CLK_TCK")
+
+
 class Worker:
     def __init__(self, prop, job, tag, workdir, logdir):
         self.job = dict(job)
@@ -81,6 +88,7 @@ class Worker:
         that many seconds (code under test spinning inside C code cannot be interrupted from inside)."""
         t_end = None if timeout is None else time.time() + timeout
         rc = None
+        seen_mtime, cpu_then = None, 0.0
         while True:
             try:
                 rc = self.proc.wait(timeout=2.0)
@@ -90,8 +98,14 @@ class Worker:
             now = time.time()
             stalled = False
             if stall is not None:
+                # measured in the worker's own CPU seconds: on a loaded machine a slow case is not a hang (ten times
+                # the limit in wall-clock seconds is the backstop for a worker that sleeps for ever)
                 try:
-                    stalled = now - os.path.getmtime(self.journal) > stall
+                    mtime = os.path.getmtime(self.journal)
+                    cpu = _cpu_seconds(self.proc.pid)
+                    if mtime != seen_mtime:
+                        seen_mtime, cpu_then = mtime, cpu
+                    stalled = (cpu - cpu_then) > stall or (now - mtime) > 10 * stall
                 except OSError:
                     stalled = False
             if stalled or (t_end is not None and now > t_end):
